@@ -43,13 +43,18 @@ def cls_val(*classes: ClassInfo) -> ClsVal:
 class AbsState:
     """Immutable-by-convention mapping text -> abstract value."""
 
-    def __init__(self, values: dict[str, object] | None = None):
+    def __init__(self, values: dict[str, object] | None = None, overrides: dict[str, object] | None = None):
         self.values = dict(values or {})
+        # rule-supplied assumptions about whole expressions ("f(x) returns None", "a == b holds");
+        # never invalidated by assignments on the path
+        self.overrides = dict(overrides or {})
 
     def copy(self) -> AbsState:
-        return AbsState(self.values)
+        return AbsState(self.values, self.overrides)
 
     def get(self, text: str):
+        if text in self.overrides:
+            return self.overrides[text]
         return self.values.get(text)
 
     def set(self, text: str, value) -> None:
@@ -102,6 +107,9 @@ class Evaluator:
     # ------------------------------------------------------------ truth
 
     def truth(self, node: ast.expr, st: AbsState) -> bool | None:
+        override = st.get(src(node))
+        if isinstance(override, ConstVal) and not isinstance(node, (ast.Name, ast.Constant)):
+            return bool(override.value)
         if isinstance(node, ast.UnaryOp) and isinstance(node.op, ast.Not):
             r = self.truth(node.operand, st)
             return None if r is None else not r
@@ -222,6 +230,20 @@ class Evaluator:
                 self._assign(n.targets[0].id, n.value, st)
             elif isinstance(n, ast.AnnAssign) and isinstance(n.target, ast.Name) and n.value is not None:
                 self._assign(n.target.id, n.value, st)
+            elif (
+                isinstance(n, ast.Assign)
+                and len(n.targets) == 1
+                and isinstance(n.targets[0], ast.Tuple)
+                and not isinstance(n.value, ast.Tuple)
+            ):
+                # tuple unpacking of a call result: rules may describe the components as "<call>#<i>"
+                text = src(n.value)
+                for i, t in enumerate(n.targets[0].elts):
+                    if isinstance(t, ast.Name):
+                        st.kill_root(t.id)
+                        v = st.get(f"{text}#{i}")
+                        if v is not None:
+                            st.set(t.id, v)
             else:
                 for name in _binds(step):
                     st.kill_root(name)
@@ -292,6 +314,13 @@ class Evaluator:
                 )
                 st.set(subj, ClsVal(keep))
             return
+        if isinstance(node, ast.Compare) and len(node.ops) == 1 and isinstance(node.ops[0], (ast.Is, ast.IsNot, ast.Eq, ast.NotEq)):
+            a, b = node.left, node.comparators[0]
+            for x, y in ((a, b), (b, a)):
+                if isinstance(y, ast.Constant) and isinstance(y.value, bool) and isinstance(x, (ast.Attribute, ast.Name)):
+                    pos = isinstance(node.ops[0], (ast.Is, ast.Eq)) == value
+                    self._narrow_cond(x, pos if y.value else not pos, st)
+                    return
         if isinstance(node, ast.Compare) and len(node.ops) == 1 and isinstance(node.ops[0], (ast.Is, ast.IsNot)):
             a, b = node.left, node.comparators[0]
             isnone = isinstance(node.ops[0], ast.Is) == value
@@ -303,6 +332,16 @@ class Evaluator:
                     if isnone:
                         st.set(src(x), ConstVal(None))
             return
+        # a constant-valued flag read on an object of known class set: keep the classes that agree
+        if isinstance(node, ast.Attribute):
+            base = self.value(node.value, st)
+            if isinstance(base, ClsVal) and base.classes:
+                keep = set()
+                for c in base.classes:
+                    cv = self.m.const_property(c, node.attr)
+                    if cv is NONCONST or cv is ABSTRACT or bool(cv) == value:
+                        keep.add(c)
+                st.set(src(node.value), ClsVal(frozenset(keep)))
         # plain truthiness of a tracked boolean expression
         text = src(node)
         if st.get(text) is None and isinstance(node, (ast.Name, ast.Attribute)):
